@@ -389,7 +389,8 @@ def run(ctx):
     if ctx.replay:
         rp = json.load(open(ctx.replay))["replay"]
         lines = [(rp["line"], "replay", None)] if "line" in rp else []
-        skips = [(rp["op"], rp.get("first"), rp.get("tags", []))] if "op" in rp else []
+        skips = [(rp["op"], rp.get("first"), rp.get("tags", []))] if rp.get("op", "").startswith("skip") else []
+        loads = [(rp["op"], rp["lines"], rp["target"], rp["tags"])] if rp.get("op", "").startswith("load") else []
     else:
         lines += gen_lines(ctx)
         vocab = extract_vocab()
@@ -408,7 +409,10 @@ def run(ctx):
         tags = [x for x in ALPHA + ["linux", "zz"] if ctx.rng.random() < 0.4]
         evops.append(("ev %s %s" % (hx(l), ",".join(tags) or "-"), l, tags))
     allops = ops + [e[0] for e in evops] + [s[0] for s in skips]
-    _, out, err = ctx.run_bin(harness, input_text="\n".join(allops) + "\n")
+    if allops:
+        _, out, err = ctx.run_bin(harness, input_text="\n".join(allops) + "\n")
+    else:
+        out, err = "", ""
     impl = out.splitlines()
     if len(impl) != len(allops):
         raise vlib.InfraError("harness produced %d lines for %d ops: %s" % (len(impl), len(allops), err[-500:]))
@@ -521,8 +525,56 @@ def run(ctx):
         if g[0].split()[0] != want:
             ctx.violation("skip:wrong-decision", "%s: loader says %s; constraint %r under tags %s + {%s,%s} means %s" % (
                 op[:40], g[0], decisive, tags, os_, arch, want), rep)
-        skipm_ops.append("skipm %s %s %s %s %s" % (os_ or "-", arch or "-", ",".join(tags) or "-", ",".join(doc) or "-", ",".join(com) or "-"))
-        skip_impl.append(g[0])
+        if all(t.isascii() for t in texts + list(tags)):
+            skipm_ops.append("skipm %s %s %s %s %s" % (os_ or "-", arch or "-", ",".join(tags) or "-", ",".join(doc) or "-", ",".join(com) or "-"))
+            skip_impl.append(g[0])
+
+    # ---------------- the whole file-selection path: loader.LoadProgram on generated modules ----------------
+    if loads:
+        import concurrent.futures as cf
+        nproc = 6
+        chunks = [loads[k::nproc] for k in range(nproc)]
+        with cf.ThreadPoolExecutor(nproc) as ex:
+            outs = list(ex.map(lambda ch: ctx.run_bin(harness, (), "\n".join(x[0] for x in ch) + "\n", 1800)[1].splitlines() if ch else [], chunks))
+        for ch, ol in zip(chunks, outs):
+            if len(ol) != len(ch):
+                raise vlib.InfraError("harness produced %d lines for %d load ops" % (len(ol), len(ch)))
+            for (op, llines, tgt, tags), r in zip(ch, ol):
+                os_ = "js" if tgt in ("-", "") else tgt
+                tagset = set(tags) | {os_, "wasm"}
+                rep = {"op": op, "lines": llines, "target": tgt, "tags": tags, "impl": r}
+                want_files, bad = ["base"], None
+                for k, l in enumerate(llines):
+                    text = ref_split(l)
+                    if text is None:
+                        want_files.append("f%d" % k); continue
+                    try:
+                        if ev(ref_parse(text), lambda t: t in tagset):
+                            want_files.append("f%d" % k)
+                    except Reject:
+                        bad = bad or l
+                want = "err" if bad else "ok " + ",".join(sorted(want_files))
+                bump("load:" + ("err" if bad else "ok"))
+                nontrivial.add(("load", tgt, bool(tags), bad is not None, len(want_files)))
+                allops.append(op)
+                if bad:
+                    if not r.startswith("err "):
+                        ctx.violation("load:accepts-malformed-constraint", "LoadProgram(target=%s tags=%s) with a file carrying %r -> %s; want a '#wa:build' parse error" % (
+                            tgt, tags, bad, r), rep)
+                elif r != want:
+                    got = set(r[3:].split(",")) if r.startswith("ok ") else set()
+                    diff = sorted(set(want_files) ^ got, key=lambda n: (len(n), n))
+                    which = ["%s %r" % (n, llines[int(n[1:])] if n != "base" else "") for n in diff[:4]]
+                    ctx.violation("load:wrong-file-set", "LoadProgram(target=%s tags=%s): package files %s, the constraints mean %s; differing: %s" % (
+                        tgt, tags, r, want, "; ".join(which)), rep)
+                # the same decisions from the Lean model (one skipm per file)
+                if r.startswith(("ok ", "err ")) and all(l.isascii() for l in llines) and all(t.isascii() for t in tags):
+                    got = set(r[3:].split(",")) if r.startswith("ok ") else None
+                    for k, l in enumerate(llines):
+                        if got is None and l != bad:
+                            continue
+                        skipm_ops.append("skipm %s wasm %s - %s" % (os_, ",".join(tags) or "-", hx(l)))
+                        skip_impl.append(r if got is None else ("included" if "f%d" % k in got else "skiped"))
 
     # ---------------- correspondence with the Lean model (ASCII lines) ----------------
     if model:
@@ -557,6 +609,8 @@ def run(ctx):
         "samples": samples,
         "distribution": dist,
         "printer_parenthesises_not_not": wrap,
+        "special_words_extracted": 0 if ctx.replay else len(vocab),
+        "loadprogram_modules": len(loads),
     }
     return ctx.finish("proof", cov,
                       assumptions=["ASCII tag alphabet in the model (Go's unicode.IsLetter/IsDigit not modelled)",
